@@ -2840,6 +2840,13 @@ func (col *DatabaseCollectionWithUser) documentUpdateFunc(
 	// Prune old revision history to limit the number of revisions:
 	if pruned := doc.pruneRevisions(ctx, col.revsLimit(), doc.GetRevTreeID()); pruned > 0 {
 		base.DebugfCtx(ctx, base.KeyCRUD, "updateDoc(%q): Pruned %d old revisions", base.UD(doc.ID), pruned)
+		// Pruning can remove whole (old, tombstoned) branches, which changes the number of leaves. The flags derived
+		// from the leaf count were computed by updateWinningRevAndSetDocFlags before pruning, so bring them back in
+		// line with the pruned tree. Pruning never removes the winning revision, so the current rev, Deleted flag and
+		// TombstonedAt are unaffected.
+		_, branched, inConflict := doc.History.winningRevision(ctx)
+		doc.setFlag(channels.Conflict, inConflict)
+		doc.setFlag(channels.Branched, branched)
 	}
 
 	updatedExpiry = doc.updateExpiry(syncExpiry, updatedExpiry, expiry)
